@@ -263,6 +263,9 @@ class FortranAST:
                 include_file = workspace[file_path]
                 include_ast = include_file.ast
                 inc.file = include_file
+                # A file that includes itself contributes nothing new
+                if include_ast is self:
+                    continue
                 if include_ast.none_scope:
                     if include_ast.inc_scope is None:
                         include_ast.inc_scope = include_ast.none_scope
@@ -270,7 +273,9 @@ class FortranAST:
                     for obj in added_entities:
                         parent_scope.children.remove(obj)
                     added_entities = []
-                    for child in include_ast.inc_scope.children:
+                    # Iterate over a copy, with cyclic includes the list of included
+                    # entities can be the very list that is being extended
+                    for child in list(include_ast.inc_scope.children):
                         added_entities.append(child)
                         if parent_scope is not None:
                             parent_scope.add_child(child)
